@@ -560,6 +560,26 @@ class CallMixin:
                 o = SOpaque(("open",) + tuple(short(a) for a in args))
                 o.__dict__["open_args"] = (list(args), dict(kwargs))
                 return o
+            if nm == "next" and args and isinstance(args[0], SList) and args[0].mode == "map" and "cond_nodes" in args[0].__dict__:
+                # next((elt for target in it if cond), default): the first element satisfying cond, or the default
+                g = args[0]
+                c = run.path.choose(("next-found", g.uid), 2, ("an element satisfies the condition", "no element satisfies the condition"))
+                if c == 1:
+                    if len(args) > 1:
+                        return args[1]
+                    self.raise_exc("StopIteration", node)
+                saved = dict(self.frame.env)
+                try:
+                    self.bind_target(g.__dict__["target_node"], g.var, node)
+                    for cn in g.__dict__["cond_nodes"]:
+                        if not run.truth(self.eval(cn), cn):
+                            from .interp import Infeasible
+                            raise Infeasible()
+                finally:
+                    self.frame.env.clear()
+                    self.frame.env.update(saved)
+                run.effect("search", g, None, g.var, node)
+                return g.elt
             if nm in ("iter", "next", "zip", "map", "filter"):
                 return SOpaque((nm,) + tuple(short(a) for a in args))
             if nm == "format":
